@@ -128,6 +128,10 @@ def handle (op : String) (fs : List (String × String)) : String :=
     match parseFont fs, (getField fs "lookups").bind readLookups with
     | some f, some ls => showOutcome (parseBytes f (explainGsub f ls))
     | _, _ => "bad-case"
+  else if op == "dsl.rtseed" then
+    -- Parse(Explain(l)) = l for the forms not modelled here: compared structurally by the
+    -- harness on the real code; the property fixes the expected verdict
+    "same"
   else if op == "dsl.flags" then
     match (getField fs "f").bind String.toNat? with
     | some f => s!"{f}"
